@@ -476,15 +476,19 @@ class Datastore(metaclass=ABCMeta):
         Transactions can be nested, and are to be used in combination with
         `Registry.transaction`.
         """
-        self._transaction = DatastoreTransaction(self._transaction)
+        transaction = DatastoreTransaction(self._transaction)
+        self._transaction = transaction
         try:
-            yield self._transaction
+            yield transaction
         except BaseException:
-            self._transaction.rollback()
+            transaction.rollback()
             raise
         else:
-            self._transaction.commit()
-        self._transaction = self._transaction.parent
+            transaction.commit()
+        finally:
+            # Always restore the parent, so that a failure that is caught by
+            # the caller does not leave a finished transaction in place.
+            self._transaction = transaction.parent
 
     def _set_trust_mode(self, mode: bool) -> None:
         """Set the trust mode for this datastore.
